@@ -79,28 +79,233 @@ ILLEGAL = [",", ":", ";", "(", ")"]
 
 
 # ---------------------------------------------------------------- translator (Gen)
-def gen_lean():
+def _logical_lines(src):
+    """(indent, text) of every logical line of a .pyx/.py text, comments and blank lines dropped, tokens joined
+    without layout (a space only between two word-like tokens) -- formatting and comments do not matter."""
+    import io
+    import tokenize
+    out, cur, indent, prev = [], [], None, None
+    for tok in tokenize.generate_tokens(io.StringIO(src).readline):
+        if tok.type in (tokenize.COMMENT, tokenize.NL, tokenize.INDENT, tokenize.DEDENT, tokenize.ENCODING):
+            continue
+        if tok.type == tokenize.NEWLINE:
+            if cur:
+                out.append((indent, "".join(cur)))
+            cur, indent, prev = [], None, None
+            continue
+        if tok.type == tokenize.ENDMARKER:
+            break
+        if indent is None:
+            indent = tok.start[1]
+        t = tok.string
+        if prev and (prev[-1].isalnum() or prev[-1] == "_") and t[:1] and (t[0].isalnum() or t[0] == "_"):
+            cur.append(" ")
+        cur.append(t)
+        prev = t
+    return out
+
+
+_DOC = ('"' * 3, "'" * 3, 'r' + '"' * 3)
+
+
+def _func(lines, header, nth=0):
+    """Header and body statements (docstring and bare `cdef T x` declarations dropped) of the nth def whose
+    normalised header starts with `header`."""
+    hits = [k for k, (_, t) in enumerate(lines) if t.startswith(header)]
+    if len(hits) <= nth:
+        raise ValueError(f"function {header!r} (occurrence {nth}) not found in the source")
+    k = hits[nth]
+    ind = lines[k][0]
+    body = []
+    for ind2, t in lines[k + 1:]:
+        if ind2 <= ind:
+            break
+        if t.startswith(_DOC):
+            continue
+        if re.match(r"^cdef [A-Za-z_][\w.\[\]:, ]*$", t) and "=" not in t:
+            continue
+        body.append(t)
+    if not body:
+        raise ValueError(f"function {header!r} has no body")
+    return lines[k][1], body
+
+
+def _slice(body, first, last, what):
+    """Statements from the one starting with `first` to the one starting with `last` (both inclusive)."""
+    a = next((k for k, t in enumerate(body) if t.startswith(first)), None)
+    if a is None:
+        raise ValueError(f"{what}: statement starting with {first!r} not found")
+    b = next((k for k in range(a, len(body)) if body[k].startswith(last)), None)
+    if b is None:
+        raise ValueError(f"{what}: statement starting with {last!r} not found after {first!r}")
+    return body[a:b + 1]
+
+
+def _guards(body, what):
+    """(kind, exception class) of the leading `if …: raise X(…)` input checks, in source order."""
+    out = []
+    k = 0
+    while k + 1 < len(body) and body[k].startswith("if") and body[k + 1].startswith("raise "):
+        cond = body[k]
+        exc = re.match(r"raise (\w+)\(", body[k + 1])
+        if not exc:
+            raise ValueError(f"{what}: cannot read the exception class of {body[k + 1]!r}")
+        if "allclose" in cond and "shape[0]!=distances.shape[1]" in cond:
+            kind = "symmetric"
+        elif "isnan" in cond:
+            kind = "nan"
+        elif re.search(r">=MAX_FLOAT\)", cond):
+            kind = "infinite"
+        elif (m := re.fullmatch(r"if distances\.shape\[0\](<=?|>=?)(\d+):", cond)):
+            kind = f"rows{m.group(1)}{m.group(2)}"
+        elif re.fullmatch(r"if\(distances<0\)\.any\(\):", cond):
+            kind = "negative"
+        else:
+            kind = "?" + cond
+        out.append((kind, exc.group(1)))
+        k += 2
+    if not out:
+        raise ValueError(f"{what}: no input checks found")
+    return out
+
+
+def _checks(body):
+    """(condition, exception class) for every `raise` of a function body, in source order."""
+    out = []
+    for k, t in enumerate(body):
+        m = re.match(r"raise (\w+)\(", t)
+        if m:
+            cond = next((body[q] for q in range(k - 1, -1, -1) if body[q].startswith(("if", "elif", "else"))), "")
+            out.append((cond, m.group(1)))
+    return out
+
+
+def _lean_str(x):
+    return '"' + x.replace("\\", "\\\\").replace('"', '\\"') + '"'
+
+
+def _lean_val(v):
+    if isinstance(v, str):
+        return _lean_str(v)
+    if isinstance(v, int):
+        return str(v)
+    if isinstance(v, tuple):
+        return "(" + ", ".join(_lean_val(x) for x in v) + ")"
+    if isinstance(v, list):
+        return "[" + ", ".join(_lean_val(x) for x in v) + "]"
+    raise TypeError(type(v))
+
+
+def _lean_type(v):
+    if isinstance(v, str):
+        return "String"
+    if isinstance(v, int):
+        return "Nat"
+    if isinstance(v, tuple):
+        return " × ".join(_lean_type(x) for x in v)
+    if isinstance(v, list):
+        return "List (" + (_lean_type(v[0]) if v else "String") + ")"
+    raise TypeError(type(v))
+
+
+def source_facts():
+    """Every literal / structural fact of the three anchored .pyx files the hand-written model hard-codes."""
     from common import paths
-    tree_src = open(os.path.join(paths.SRC, "biotite/sequence/phylo/tree.pyx")).read()
-    nj_src = open(os.path.join(paths.SRC, "biotite/sequence/phylo/nj.pyx")).read()
-    m = re.search(r"illegal_chars\s*=\s*\[([^\]]*)\]", tree_src)
+    base = os.path.join(paths.SRC, "biotite/sequence/phylo")
+    up = _logical_lines(open(os.path.join(base, "upgma.pyx")).read())
+    nj = _logical_lines(open(os.path.join(base, "nj.pyx")).read())
+    tr = _logical_lines(open(os.path.join(base, "tree.pyx")).read())
+    F = {}
+    # ---- upgma
+    _, b = _func(up, "def upgma(")
+    F["upgmaGuards"] = _guards([t for t in b if not t.startswith("cdef")], "upgma")
+    F["upgmaInit"] = [t for t in b if t.startswith("cdef") and "=" in t and ("np." in t or "astype" in t)]
+    F["upgmaScan"] = _slice(b, "dist_min=", "j_min=j", "upgma minimum search")
+    F["upgmaMerge"] = _slice(b, "if i_min==", "cluster_size_v[i_min]=", "upgma merge step")
+    F["upgmaReturn"] = b[-1]
+    m = re.fullmatch(r"height=dist_min/(\d+)", next((t for t in b if t.startswith("height=")), ""))
     if not m:
-        raise ValueError("illegal_chars list not found in tree.pyx")
+        raise ValueError("upgma: `height = dist_min/<int>` not found")
+    F["upgmaHeightDivisor"] = int(m.group(1))
+    m = re.fullmatch(r"if dist(<=?|>=?)dist_min:", next((t for t in b if t.startswith("if dist") and "dist_min" in t), ""))
+    if not m:
+        raise ValueError("upgma: comparison of the minimum search not found")
+    F["upgmaScanCmp"] = m.group(1)
+    # ---- neighbor_joining
+    _, b = _func(nj, "def neighbor_joining(")
+    F["njGuards"] = _guards([t for t in b if not t.startswith("cdef")], "neighbor_joining")
+    F["njInit"] = [t for t in b if t.startswith("cdef") and "=" in t and ("np." in t or "astype" in t or "len(" in t)]
+    F["njDivergence"] = _slice(b, "for i in range(distances_v.shape[0]):", "divergence_v[i]=", "nj divergence")
+    k0 = next(k for k, t in enumerate(b) if t.startswith("divergence_v[i]="))
+    F["njCorrected"] = _slice(b[k0 + 1:], "for i in range", "corr_distances_v[i,j]=", "nj corrected distances")
+    F["njScan"] = _slice(b, "dist_min=", "j_min=j", "nj minimum search")
+    F["njJoin"] = _slice(b, "if i_min==", "return Tree(root)", "nj join")
+    k1 = next(k for k, t in enumerate(b) if t.startswith("return Tree(root)"))
+    F["njUpdate"] = b[k1 + 1:]
+    m = re.fullmatch(r"if n_rem_nodes(<=?|>=?)(\d+):", next((t for t in b if t.startswith("if n_rem_nodes")), ""))
+    if not m:
+        raise ValueError("nj: `if n_rem_nodes > <int>` not found")
+    F["njJoinCmp"] = (m.group(1), int(m.group(2)))
+    m = re.search(r"\(n_rem_nodes-(\d+)\)\*distances_v\[i,j\]", " ".join(b))
+    if not m:
+        raise ValueError("nj: `(n_rem_nodes - <int>) * distances_v[i,j]` not found")
+    F["njCorrOffset"] = int(m.group(1))
+    halves = sorted(set(re.findall(r"=(\d+)\.(\d+)\*\(", " ".join(t for t in b if t.startswith(("node_dist_", "dist="))))))
+    if len(halves) != 1:
+        raise ValueError(f"nj: the factor of the half-sums is not unique: {halves}")
+    F["njHalf"] = (int(halves[0][0] + halves[0][1]), 10 ** len(halves[0][1]))
+    m = re.fullmatch(r"if dist(<=?|>=?)dist_min:", next((t for t in b if t.startswith("if dist") and "dist_min" in t), ""))
+    if not m:
+        raise ValueError("nj: comparison of the minimum search not found")
+    F["njScanCmp"] = m.group(1)
+    mm = [g for g in F["njGuards"] if g[0].startswith("rows")]
+    if len(mm) != 1:
+        raise ValueError("nj: minimum size guard not found")
+    mrow = re.fullmatch(r"rows(<=?|>=?)(\d+)", mm[0][0])
+    F["njMinRowsCmp"] = (mrow.group(1), int(mrow.group(2)))
+    # ---- tree.pyx
+    hdrs = []
+    for header, nth in (("def __init__(self,TreeNode root", 0), ("def get_distance(", 0), ("def to_newick(self,labels", 0),
+                        ("def from_newick(str newick", 0), ("def __cinit__(self,children", 0), ("def _set_parent(", 0),
+                        ("def distance_to(", 0), ("def lowest_common_ancestor(", 0), ("def to_newick(self,labels", 1),
+                        ("def from_newick(str newick", 1), ("def as_binary(", 0), ("def copy(self)", 0)):
+        hdrs.append(_func(tr, header, nth)[0])
+    F["signatures"] = hdrs
+    for name, header, nth in (("treeInit", "def __init__(self,TreeNode root", 0), ("treeCopy", "def __copy_create__(self)", 0),
+                              ("treeLeaves", "def leaves(self)", 0), ("treeGetDistance", "def get_distance(", 0),
+                              ("treeToNewick", "def to_newick(self,labels", 0), ("treeFromNewick", "def from_newick(str newick", 0),
+                              ("nodeSetParent", "def _set_parent(", 0), ("nodeCopy", "def copy(self)", 0),
+                              ("nodeAsRoot", "def as_root(self)", 0), ("nodeDistanceTo", "def distance_to(", 0),
+                              ("nodeLca", "def lowest_common_ancestor(", 0), ("createPathToRoot", "cdef list _create_path_to_root(", 0),
+                              ("getLeavesRec", "cdef _get_leaves(", 0), ("nodeToNewick", "def to_newick(self,labels", 1),
+                              ("nodeFromNewick", "def from_newick(str newick", 1), ("asBinary", "def as_binary(", 0),
+                              ("asBinaryRec", "cdef _as_binary(", 0)):
+        F[name] = _func(tr, header, nth)[1]
+    _, b = _func(tr, "def __cinit__(self,children")
+    F["nodeInitChecks"] = _checks(b)
+    F["nodeInitAssign"] = [t for t in b if t.startswith(("self._", "child._set_parent", "for child,distance"))]
+    m = re.search(r"illegal_chars=\[([^\]]*)\]", " ".join(F["nodeToNewick"]))
+    if not m:
+        raise ValueError("illegal_chars list not found in TreeNode.to_newick")
     chars = re.findall(r"""["'](.)["']""", m.group(1))
     if not chars:
         raise ValueError("illegal_chars list is empty / not literal")
-    m2 = re.search(r"if\s+distances\.shape\[0\]\s*<\s*(\d+)\s*:\s*\n\s*raise ValueError", nj_src)
-    if not m2:
-        raise ValueError("minimum size guard not found in nj.pyx")
-    body = ["/- REGENERATED on every run by harness/props/c19.py from sequence/phylo/tree.pyx and nj.pyx. Do not edit. -/",
-            "namespace BiotiteModel.Gen.C19",
-            "/-- `illegal_chars` of `TreeNode.to_newick` (code points). -/",
-            "def illegalChars : List Nat := [" + ", ".join(str(ord(c)) for c in chars) + "]",
-            "/-- Code points Python's `str.isspace` accepts (what `str.split()`/`strip()` remove), from the running interpreter. -/",
-            "def whitespace : List Nat := [" + ", ".join(str(c) for c in range(0x110000) if chr(c).isspace()) + "]",
-            "/-- `neighbor_joining` raises ValueError below this many rows. -/",
-            f"def njMinNodes : Nat := {int(m2.group(1))}",
-            "end BiotiteModel.Gen.C19", ""]
+    F["illegalChars"] = [ord(c) for c in chars]
+    return F
+
+
+def gen_lean():
+    F = source_facts()
+    body = ["/- REGENERATED on every run by harness/props/c19.py from sequence/phylo/{upgma,nj,tree}.pyx. Do not edit.",
+            "   Statements are normalised logical lines (comments, docstrings, layout and bare `cdef` declarations dropped). -/",
+            "namespace BiotiteModel.Gen.C19"]
+    for name, val in F.items():
+        body.append(f"def {name} : {_lean_type(val)} := {_lean_val(val)}")
+    body += ["/-- Code points Python's `str.isspace` accepts (what `str.split()`/`strip()` remove), from the running interpreter. -/",
+             "def whitespace : List Nat := [" + ", ".join(str(c) for c in range(0x110000) if chr(c).isspace()) + "]",
+             "/-- `neighbor_joining` raises ValueError below this many rows. -/",
+             f"def njMinNodes : Nat := {F['njMinRowsCmp'][1]}",
+             "end BiotiteModel.Gen.C19", ""]
     return {"BiotiteModel/Gen/C19.lean": "\n".join(body)}
 
 
